@@ -190,7 +190,7 @@ impl Response {
         {
             let mut body: Vec<u8> = Vec::new();
 
-            while let Some(chunk) = parse_chunk(&mut reader) {
+            while let Some(chunk) = parse_chunk(&mut reader)? {
                 body.extend(chunk);
             }
 
@@ -268,18 +268,30 @@ impl From<Response> for Vec<u8> {
 }
 
 /// Parses a chunk using the chunked transfer encoding.
-fn parse_chunk<T>(stream: &mut BufReader<T>) -> Option<Vec<u8>>
+///
+/// Returns `Ok(None)` once the terminating zero-length chunk has been read, and an error if the stream ends or
+///   something other than a chunk is found before that, so that a truncated body is not mistaken for a complete one.
+fn parse_chunk<T>(stream: &mut BufReader<T>) -> Result<Option<Vec<u8>>, ResponseError>
 where
     T: Read,
 {
     let mut length_line_buf: Vec<u8> = Vec::new();
-    stream.read_until(0xA, &mut length_line_buf).ok()?;
-    let length: usize =
-        usize::from_str_radix(std::str::from_utf8(&length_line_buf).ok()?.trim_end(), 16).ok()?;
+    stream
+        .read_until(0xA, &mut length_line_buf)
+        .map_err(|_| ResponseError::Stream)?;
+    let length: usize = usize::from_str_radix(
+        std::str::from_utf8(&length_line_buf)
+            .map_err(|_| ResponseError::Response)?
+            .trim_end(),
+        16,
+    )
+    .map_err(|_| ResponseError::Response)?;
 
     if length == 0 {
-        stream.read_exact(&mut [0u8, 0]).ok()?;
-        None
+        stream
+            .read_exact(&mut [0u8, 0])
+            .map_err(|_| ResponseError::Stream)?;
+        Ok(None)
     } else {
         // As above, do not allocate the claimed chunk length before the bytes have arrived
         let mut content_buf: Vec<u8> = Vec::new();
@@ -287,14 +299,16 @@ where
             .by_ref()
             .take(length as u64)
             .read_to_end(&mut content_buf)
-            .ok()?;
+            .map_err(|_| ResponseError::Stream)?;
 
         if content_buf.len() != length {
-            return None;
+            return Err(ResponseError::Stream);
         }
 
-        stream.read_exact(&mut [0u8, 0]).ok()?;
-        Some(content_buf)
+        stream
+            .read_exact(&mut [0u8, 0])
+            .map_err(|_| ResponseError::Stream)?;
+        Ok(Some(content_buf))
     }
 }
 
